@@ -89,9 +89,21 @@ type curQuery interface {
 
 type curTyped struct{ q TypedQuery }
 
-func (c curTyped) Next() bool          { return c.q.Next() }
-func (c curTyped) Ent() ecs.Entity     { return c.q.Entity() }
-func (c curTyped) Get() int64          { return *c.q.Get()[0] }
+func (c curTyped) Next() bool      { return c.q.Next() }
+func (c curTyped) Ent() ecs.Entity { return c.q.Entity() }
+
+// Get: every component of the tuple holds the same value (1000 + creation ordinal); a pointer that addresses another
+// row or another column shows as a disagreement
+func (c curTyped) Get() int64 {
+	ps := c.q.Get()
+	v := *ps[0]
+	for _, p := range ps[1:] {
+		if *p != v {
+			return -5
+		}
+	}
+	return v
+}
 func (c curTyped) Close()              { c.q.Close() }
 func (c curTyped) Count() int          { return c.q.Count() }
 func (c curTyped) At(i int) ecs.Entity { return c.q.EntityAt(i) }
@@ -194,9 +206,7 @@ func (x *Exec) CursorRun(maxLen int) {
 					}
 					ord[e] = n
 					for _, c := range a.comps {
-						if c == "A" {
-							*(*int64)(u.Get(e, x.ids["A"])) = 1000 + int64(n)
-						}
+						*x.payload(c, u.Get(e, x.ids[c])) = 1000 + int64(n)
 					}
 					es = append(es, e)
 					rows = append(rows, n)
